@@ -13,6 +13,7 @@ Clauses the unchanged tree violates are in `Witness.lean` (`…_full_fails`), th
 parts here under an explicit decidable exclusion.
 -/
 import CaddyModel.C06.PathLemmas
+import CaddyModel.C06.Witness
 
 namespace CaddyModel.C06
 
@@ -190,6 +191,97 @@ theorem matchPath_keepslashes_invariant (l : List Bytes) (p e p' e' : Bytes)
   unfold patMatches
   simp only [h1, Bool.false_eq_true, if_false, hm]
 
+
+/-- no pattern of the list asks for slash preservation (`//`) -/
+def mergingPatterns (l : List Bytes) : Bool := l.all (fun pat => !containsSub pat [cSlash, cSlash])
+
+/-- lists without a `//` pattern only ever look at the slash-merged forms -/
+theorem matchPath_merge_only (l : List Bytes) (p e p' e' : Bytes) (hl : mergingPatterns l = true)
+    (hp : cleanPath (lower p) = cleanPath (lower p')) (he : cleanPath e = cleanPath e') :
+    pathCase l p e = pathCase l p' e' := by
+  rw [pathCase_eq_any, pathCase_eq_any]
+  apply any_congr_mem
+  intro pat hpat
+  unfold mergingPatterns at hl
+  have := List.all_eq_true.mp hl pat hpat
+  simp only [Bool.not_eq_eq_eq_not, Bool.not_true] at this
+  have h2 : containsSub (lower pat) [cSlash, cSlash] = false := by
+    rw [containsSub_lower _ _ (by intro c hm; simp only [List.mem_cons, List.not_mem_nil, or_false, or_self] at hm; subst hm; exact nl_slash)]
+    exact this
+  unfold patMatches
+  simp only [h2, cleanPathMode, Bool.not_false, if_true, hp, he]
+
+/-- **percent-encoding (model part).** Lists without a `%` pattern never look at the escaped
+    form of the path: however the client percent-encoded the target, only the decoded
+    `URL.Path` counts. -/
+theorem matchPath_ignores_escaped_form (l : List Bytes) (p e e' : Bytes) (hl : unescapedPatterns l = true) :
+    pathCase l p e = pathCase l p e' :=
+  matchPath_keepslashes_invariant l p e p e' hl rfl rfl
+
+/-- **letter case**, provable part (full statement: `Witness.matchPath_case_invariant_full_fails`):
+    excluded are lists with a `%` pattern -/
+theorem matchPath_case_invariant_partial (l : List Bytes) (p e p' e' : Bytes)
+    (hl : unescapedPatterns l = true) (hc : lower p = lower p') :
+    pathCase l p e = pathCase l p' e' := by
+  apply matchPath_keepslashes_invariant l p e p' e' hl
+  · unfold canonPath; rw [hc]
+  · unfold canonPathKeepSlashes; rw [hc]
+
+/-- **duplicate slashes**, provable part (full statement: `Witness.matchPath_dup_slash_full_fails`):
+    excluded are lists with a `//` pattern, for which keeping empty segments is the documented intent -/
+theorem matchPath_dup_slash_invariant_partial (l : List Bytes) (a b ea eb : Bytes)
+    (hl : mergingPatterns l = true) :
+    pathCase l (a ++ cSlash :: cSlash :: b) (ea ++ cSlash :: cSlash :: eb) =
+      pathCase l (a ++ cSlash :: b) (ea ++ cSlash :: eb) := by
+  apply matchPath_merge_only l _ _ _ _ hl
+  · simp only [lower_append, lower_cons]
+    exact cleanPath_dup_slash _ _
+  · exact cleanPath_dup_slash _ _
+
+/-- both cleaning modes ignore an inserted `/./` … -/
+theorem cleanPathMode_dot_segment (mode : Bool) (a b : Bytes) :
+    cleanPathMode mode (a ++ cSlash :: cDot :: cSlash :: b) = cleanPathMode mode (a ++ cSlash :: b) :=
+  cleanPathMode_insert mode a b [dot] (by simp) (by intro s hs; simp at hs; subst hs; rfl) neutral_dot inert_dot
+
+/-- … and an inserted `/x/../` -/
+theorem cleanPathMode_dotdot_segment (mode : Bool) (a b x : Bytes) (hx : normalSeg x = true) :
+    cleanPathMode mode (a ++ cSlash :: (x ++ cSlash :: cDot :: cDot :: cSlash :: b)) = cleanPathMode mode (a ++ cSlash :: b) := by
+  have := cleanPathMode_insert mode a b [x, dotdot] (by simp) (by
+    intro s hs
+    simp only [List.mem_cons, List.not_mem_nil, or_false] at hs
+    rcases hs with hs | hs
+    · subst hs
+      unfold normalSeg at hx
+      simp only [Bool.and_eq_true, Bool.not_eq_eq_eq_not, Bool.not_true] at hx
+      exact hx.2
+    · subst hs; rfl) (neutral_dotdot x hx) (inert_seg_dotdot x hx)
+  simp only [joinSep, dotdot, List.append_assoc, List.cons_append, List.nil_append] at this
+  exact this
+
+/-- **dot segments never matter, for every pattern list** (`%` and `//` patterns included):
+    `/./` inserted into the request target -/
+theorem matchPath_dot_segment_invariant (l : List Bytes) (a b ea eb : Bytes) :
+    pathCase l (a ++ cSlash :: cDot :: cSlash :: b) (ea ++ cSlash :: cDot :: cSlash :: eb) =
+      pathCase l (a ++ cSlash :: b) (ea ++ cSlash :: eb) := by
+  apply matchPath_depends_only_on_clean_forms
+  · intro m
+    simp only [lower_append, lower_cons]
+    exact cleanPathMode_dot_segment m _ _
+  · intro m; exact cleanPathMode_dot_segment m _ _
+
+/-- … and `/x/../` inserted into the request target (`x` an ordinary segment; `x'` is its
+    spelling in the escaped form) -/
+theorem matchPath_dotdot_segment_invariant (l : List Bytes) (a b ea eb x x' : Bytes)
+    (hx : normalSeg (lower x) = true) (hx' : normalSeg x' = true) :
+    pathCase l (a ++ cSlash :: (x ++ cSlash :: cDot :: cDot :: cSlash :: b))
+               (ea ++ cSlash :: (x' ++ cSlash :: cDot :: cDot :: cSlash :: eb)) =
+      pathCase l (a ++ cSlash :: b) (ea ++ cSlash :: eb) := by
+  apply matchPath_depends_only_on_clean_forms
+  · intro m
+    simp only [lower_append, lower_cons]
+    exact cleanPathMode_dotdot_segment m _ _ _ hx
+  · intro m; exact cleanPathMode_dotdot_segment m _ _ _ hx'
+
 /-- **the order of the patterns never matters** (Provision's `*` shuffle included) -/
 theorem matchPath_perm_invariant (l l' : List Bytes) (p e : Bytes) (hp : l.Perm l') :
     pathCase l p e = pathCase l' p e := by
@@ -240,5 +332,9 @@ example : unescapedPatterns [[47, 97, 47, 47, 98]] = true ∧ plainPatterns [[47
 example : pathCase [[47, 97, 47, 47, 98]] [47, 65, 47, 46, 47, 47, 98] [47, 65, 47, 46, 47, 47, 98] = true := by decide
 example : [[47, 97, 112, 105, 47, 42], [42, 46, 112, 104, 112]].Perm [[42, 46, 112, 104, 112], [47, 97, 112, 105, 47, 42]] := by decide
 example : matchPathRE .pre [47, 97, 112, 105] [47, 120, 47, 46, 46, 47, 47, 97, 112, 105, 47, 46, 47, 118, 49] = true := by decide
+
+example : mergingPatterns [[47, 97, 112, 105, 47, 42], [47, 97, 37, 50, 102, 98, 47, 42]] = true ∧ unescapedPatterns [[47, 97, 112, 105, 47, 42], [47, 97, 37, 50, 102, 98, 47, 42]] = false := by decide
+example : pathCase [[47, 97, 37, 50, 102, 98, 47, 42]] [47, 120, 47, 46, 46, 47, 47, 97, 47, 98, 47, 46, 47, 99] [47, 120, 47, 46, 46, 47, 47, 97, 37, 50, 70, 98, 47, 46, 47, 99] = true := by decide
+example : normalSeg (lower [122, 122, 57]) = true := by decide
 
 end CaddyModel.C06
